@@ -101,7 +101,8 @@ package state
 
 //@ func (s *stateObject) SetState(key, value common.Hash) (prev common.Hash)
 //@   serves C13
-//@   requires s.db != nil && s.db.journal != nil
+//@   requires s.db != nil && s.db.journal != nil && s.dirtyStorage != nil
+//@   atcall setState assume s.dirtyStorage != nil
 //@   mutates
 //@   noframe
 //@   ghostvar logged bool = false
@@ -195,6 +196,7 @@ package state
 //@   serves C13
 //@   mutates
 //@   noframe
+//@   atcall setState assume arg1 != nil && arg1.dirtyStorage != nil
 //@   atcall getStateObject requires arg1 == s && arg2 == ch.account
 //@   atcall setState requires arg2 == ch.key
 //@   atcall setState requires arg3 == ch.prevvalue
@@ -242,3 +244,36 @@ package state
 //@   noframe
 //@   ensures len(j.entries) == 0 && len(j.validRevisions) == 0 && j.nextRevisionId == 0
 //@   ensures revInv(j)
+
+// setState (storage origin tracking): a slot is dirty exactly when its value differs from the
+// origin it is compared against; writing the origin value back removes the dirty entry, any other
+// value is recorded under that key, and no other key is touched.
+//@ func (s *stateObject) setState(key common.Hash, value common.Hash, origin common.Hash)
+//@   serves C13
+//@   requires s.dirtyStorage != nil
+//@   modifies s.dirtyStorage[..]
+//@   ensures value == origin ==> !haskey(s.dirtyStorage, key)
+//@   ensures value != origin ==> haskey(s.dirtyStorage, key) && s.dirtyStorage[key] == value
+//@   ensures forall q common.Hash :: q != key ==> haskey(s.dirtyStorage, q) == old(haskey(s.dirtyStorage, q)) && s.dirtyStorage[q] == old(s.dirtyStorage[q])
+
+// getState: the current value of a slot is its dirty value if it has one, else the committed one.
+//@ func (s *stateObject) getState(key common.Hash) (value common.Hash, origin common.Hash)
+//@   serves C13
+//@   requires s.db != nil
+//@   mutates
+//@   noframe
+//@   ensures haskey(s.dirtyStorage, key) ==> value == s.dirtyStorage[key]
+//@   ensures !haskey(s.dirtyStorage, key) ==> value == origin
+
+// GetCommittedState: a pending write wins over the cached origin value, which wins over the
+// database; a slot of an account destructed in this block reads as zero without consulting it.
+//@ func (s *stateObject) GetCommittedState(key common.Hash) (value common.Hash)
+//@   serves C13
+//@   requires s.db != nil
+//@   mutates
+//@   noframe
+//@   ghostvar loaded bool = false
+//@   oncall Storage: loaded = true
+//@   ensures old(haskey(s.pendingStorage, key)) ==> value == old(s.pendingStorage[key]) && !loaded
+//@   ensures !old(haskey(s.pendingStorage, key)) && old(haskey(s.originStorage, key)) ==> value == old(s.originStorage[key]) && !loaded
+//@   ensures !old(haskey(s.pendingStorage, key)) && !old(haskey(s.originStorage, key)) && old(haskey(s.db.stateObjectsDestruct, s.address)) ==> iszero(value) && !loaded
